@@ -84,4 +84,18 @@ def opDavOp (args : List SExp) : Option OpResult := do
     pure ⟨impl, mustEqual "C05" s!"{op}-reaches-backend-differently" impl⟩
   | _ => none
 
+/-- `dav.fail <op> <kind> => <code>`: a failing FileSystem — the client's error carries the status the backend chose
+    (`NewHTTPError`), 500 for an error without one; two mappings of server.go: a not-found from Mkdir is a conflict
+    (409), an already-exists from Copy / Move is a failed precondition (412) -/
+def opDavFail (args : List SExp) : Option OpResult := do
+  match args with
+  | [.atom op, .atom kind] =>
+    let want : String :=
+      if kind = "plain" then "500"
+      else if kind = "exist" then (if op = "copy" || op = "move" then "412" else "500")
+      else if kind = "http404" && op = "mkdir" then "409"
+      else (kind.drop 4).toString
+    pure ⟨want, fun got => mustEqual "C14" s!"backend-status-lost-in-{op}" want got ++ mustEqual "C05" s!"{op}-failure-reported-as-{got}" want got⟩
+  | _ => none
+
 end Driver
